@@ -81,6 +81,13 @@ class NullLog(object):
             sim.log('log_error', who=self.name, msg=clean(msg))
 
     def _noop(self, *a, **k):
+        # a real logger writes to a file under a lock: a blocking point.  A
+        # knob of the world (`sim.data['log_yield']`, off by default) turns
+        # every log call into a pre-emption point of the simulation
+        sim = K.CUR
+        if sim is not None and sim.data.get('log_yield') and \
+                not sim.tearing_down and sim.in_sim_thread():
+            sim.yield_('log')
         return None
 
     def __getattr__(self, k):
